@@ -532,6 +532,15 @@ def _precond_dim(compression_rank, dim):
   return compressed_size
 
 
+def _identity_preconditioner(dim, precond_dim, dtype):
+  """Initial preconditioner: the identity, packed if precond_dim < dim."""
+  if precond_dim == dim:
+    return jnp.eye(dim, dtype=dtype)
+  # No retained directions, complement scaled by 1 (see _low_rank_unpack):
+  # const * (I - V V^T) + V diag(e) V^T == I.
+  return jnp.zeros((dim, precond_dim), dtype=dtype).at[0, -1].set(1.0)
+
+
 def _should_compress(compression_rank: int, dim: jnp.ndarray):
   """Consistent with _precond_dim, whether we should use compression."""
   return compression_rank != 0 and abs(compression_rank) + 2 < dim
@@ -2212,10 +2221,9 @@ def distributed_shampoo(
         ]
         pd = precond_dim(max_size)
         # If the preconditioner is using a low-rank representation, initialize
-        # it to zero instead of an invalid eye.
+        # it to the packed identity instead of an invalid eye.
         preconditioners = [
-            jnp.eye(max_size, pd, dtype=jnp.float32) * (pd == max_size)
-            for s in shapes
+            _identity_preconditioner(max_size, pd, jnp.float32) for s in shapes
         ]
         padded_statistics.extend(statistics)
         padded_preconditioners.extend(preconditioners)
@@ -2258,9 +2266,9 @@ def distributed_shampoo(
         [jnp.eye(max_size, dtype=stat_dtype) for _ in range(to_pad)])
     pd = precond_dim(max_size)
     # If the preconditioner is using a low-rank representation, initialize
-    # it to zero instead of an invalid eye.
+    # it to the packed identity instead of an invalid eye.
     padded_preconditioners.extend([
-        jnp.eye(max_size, pd, dtype=stat_dtype) * (pd == max_size)
+        _identity_preconditioner(max_size, pd, stat_dtype)
         for _ in range(to_pad)
     ])
     exponents.extend([1 for _ in range(to_pad)])
@@ -2612,10 +2620,9 @@ def distributed_shampoo(
             matrix_epsilon * jnp.eye(s[0], dtype=jnp.float32) for s in shapes
         ]
         # If the preconditioner is using a low-rank representation, initialize
-        # it to zero instead of an invalid eye.
+        # it to the packed identity instead of an invalid eye.
         preconditioners = [
-            jnp.eye(s[0], s[1], dtype=jnp.float32) * (s[0] == s[1])
-            for s in shapes
+            _identity_preconditioner(s[0], s[1], jnp.float32) for s in shapes
         ]
 
       diagonal_statistics = []
